@@ -98,7 +98,7 @@ func c04Profiles(quick bool) (ps []*bworld.Profile) {
 
 func c04(r *ev.Result, tier string) {
 	r.Rule = brokerRule
-	budget := 75 * time.Second
+	budget := 120 * time.Second /* a cap for a loaded machine; idle runs need ~20 s */
 	if !isQuick(tier) {
 		budget = 15 * time.Minute
 	}
